@@ -1754,8 +1754,14 @@ class Authenticated(BaseClientHandler):
         # We use the idling hack so EXPUNGE notifications are delivered
         # immediately to this client.
         #
+        # NOTE: As far as the mailbox's management task is concerned this
+        #       phase is a MOVE, not an EXPUNGE: an EXPUNGE is let in next to
+        #       other running commands when no message is `\\Deleted` (it has
+        #       nothing to do then), but this one removes messages no matter
+        #       what their flags are, so it must have the mailbox to itself.
+        #
         expunge_cmd = IMAPClientCommand("A001 EXPUNGE")
-        expunge_cmd.command = IMAPCommand.EXPUNGE
+        expunge_cmd.command = IMAPCommand.MOVE
         try:
             idling = self.idling
             self.idling = True
